@@ -19,6 +19,7 @@ func vhExerciseSlab(s Slab) {
 //vh:prop C19 C07
 //vh:init cbor
 //vh:param maxlen 40 66
+//vh:mode bv
 func VH_C19_SymbolicBuffer() {
 	maxlen := vhParam("maxlen", 40)
 	n := vhChoose("len", maxlen+1)
@@ -162,4 +163,93 @@ func VH_C19_MutatedRegisters() {
 	} else {
 		vhReach("rejected")
 	}
+}
+
+// vCKey: comparable key storable (compact-map keys).
+type vCKey uint64
+
+var _ ComparableStorable = vCKey(0)
+
+func (k vCKey) Encode(enc *Encoder) error              { return enc.CBOR.EncodeUint64(uint64(k)) }
+func (k vCKey) ByteSize() uint32                       { return GetUintCBORSize(uint64(k)) }
+func (k vCKey) StoredValue(SlabStorage) (Value, error) { return vU64(k), nil }
+func (k vCKey) ChildStorables() []Storable             { return nil }
+func (k vCKey) CanCopyNonRefSimple() bool              { return true }
+func (k vCKey) CopyNonRefSimple() (Storable, error)    { return k, nil }
+func (k vCKey) Equal(o Storable) bool                  { x, ok := o.(vCKey); return ok && x == k }
+func (k vCKey) Less(o Storable) bool                   { x, ok := o.(vCKey); return ok && k < x }
+func (k vCKey) ID() string                             { return "k" }
+
+// The inlined-container decoders with symbolic semantic fields: every
+// combination the extra-data decoders can hand them (key and digest lists of
+// equal length, ANY recorded count, any extra-data index, any element count),
+// encoded by the real CBOR encoder so the input is always well-formed CBOR.
+//
+//vh:prop C19
+//vh:init cbor
+func VH_C19_InlinedDecoders() {
+	em := vhRealEncMode()
+	dm := vhRealDecMode()
+	// extra data list: 0..2 entries
+	var extra []ExtraData
+	nx := vhChoose("nextra", 3)
+	for i := 0; i < nx; i++ {
+		switch vhChoose("xkind", 3) {
+		case 0:
+			extra = append(extra, &ArrayExtraData{TypeInfo: vTypeInfo{id: 1}})
+		case 1:
+			extra = append(extra, &MapExtraData{TypeInfo: vTypeInfo{id: 2}, Count: vhRange("xcount", 0, 4), Seed: 7})
+		case 2:
+			nk := vhChoose("nkeys", 3)
+			cm := &compactMapExtraData{mapExtraData: &MapExtraData{TypeInfo: vTypeInfo{id: 3}, Count: vhRange("xcount", 0, 4), Seed: 7}}
+			for j := 0; j < nk; j++ {
+				cm.hkeys = append(cm.hkeys, Digest(10*(j+1)))
+				cm.keys = append(cm.keys, vCKey(j+1))
+			}
+			extra = append(extra, cm)
+		}
+	}
+	// body: [extra data index, slab index bytes, [values...]]
+	var buf vhBuf
+	enc := NewEncoder(&buf, em)
+	outer := uint64(2 + vhChoose("outer", 3))
+	_ = enc.CBOR.EncodeArrayHead(outer)
+	_ = enc.CBOR.EncodeUint64(vhRange("xindex", 0, 30))
+	_ = enc.CBOR.EncodeBytes(make([]byte, 7+vhChoose("idxlen", 2)))
+	m := vhChoose("nelems", 4)
+	if outer >= 3 {
+		_ = enc.CBOR.EncodeArrayHead(uint64(m))
+		for i := 0; i < m; i++ {
+			_ = enc.CBOR.EncodeUint64(vhRange("elem", 0, 30))
+		}
+	}
+	if outer == 4 {
+		_ = enc.CBOR.EncodeUint64(0)
+	}
+	_ = enc.CBOR.Flush()
+	vhSetAllocLimit(len(buf.b) + 8)
+	dec := dm.NewByteStreamDecoder(buf.b)
+	var s Storable
+	var err error
+	if vhChoose("decoder", 2) == 0 {
+		s, err = DecodeInlinedArrayStorable(dec, vhDecodeStorableB, vhSlabID(1, 1), extra)
+	} else {
+		s, err = DecodeInlinedCompactMapStorable(dec, vhDecodeStorableB, vhSlabID(1, 1), extra)
+	}
+	if err == nil {
+		vhAssert(s != nil, "success returns a storable")
+		_ = s.ByteSize()
+		_ = s.ChildStorables()
+		vhReach("decoded")
+	} else {
+		vhReach("rejected")
+	}
+}
+
+// vhBuf: minimal io.Writer.
+type vhBuf struct{ b []byte }
+
+func (w *vhBuf) Write(p []byte) (int, error) {
+	w.b = append(w.b, p...)
+	return len(p), nil
 }
